@@ -83,7 +83,7 @@ fn write_summary(ctx: &Ctx, prop: &str, s: &Summary, rule: &str, extra: &str) {
     // the model driver answers every request; keep its share of a run bounded by count and by
     // volume. Over the bound the requests are thinned by a fixed stride (deterministic, and every
     // generator family and request kind keeps its share) rather than cut off at the end.
-    let (max_n, max_bytes) = if ctx.thorough() { (160000usize, 2_000_000_000usize) } else { (14000, 250_000_000) };
+    let (max_n, max_bytes) = if ctx.thorough() { (160000usize, 2_000_000_000usize) } else { (30000, 400_000_000) };
     let total_bytes: usize = s.requests.iter().map(|(a, _)| a.len()).sum();
     let stride = std::cmp::max((s.requests.len() + max_n - 1) / max_n.max(1), (total_bytes + max_bytes - 1) / max_bytes.max(1)).max(1);
     let mut written = 0usize;
